@@ -2,6 +2,7 @@ package limitlab
 
 import (
 	"context"
+	"errors"
 	"math/rand/v2"
 	"net"
 	"sync"
@@ -258,7 +259,50 @@ type DelayDialer struct {
 	LocalIP string
 	Delay   func() time.Duration
 	dials   atomic.Int64
+
+	// hanging mode: a dial only returns when its context is cancelled (the
+	// way a dial to a black-holed address behaves) or when the monitor lets
+	// it fail
+	hang      atomic.Bool
+	parked    atomic.Int64 // dials currently hanging
+	everHung  atomic.Int64
+	cancelled atomic.Int64 // hanging dials that saw their context cancelled
+	relMu     sync.Mutex
+	release   chan struct{}
 }
+
+// Hang switches the hanging mode on.
+func (d *DelayDialer) Hang() {
+	d.relMu.Lock()
+	if d.release == nil {
+		d.release = make(chan struct{})
+	}
+	d.relMu.Unlock()
+	d.hang.Store(true)
+}
+
+// LetFail ends the hanging mode: every hanging dial fails with an error.
+func (d *DelayDialer) LetFail() {
+	d.hang.Store(false)
+	d.relMu.Lock()
+	if d.release != nil {
+		select {
+		case <-d.release:
+		default:
+			close(d.release)
+		}
+	}
+	d.relMu.Unlock()
+}
+
+// Hanging returns how many dials are in flight (hanging) right now.
+func (d *DelayDialer) Hanging() int64 { return d.parked.Load() }
+
+// EverHung returns how many dials have hung so far.
+func (d *DelayDialer) EverHung() int64 { return d.everHung.Load() }
+
+// Cancelled returns how many hanging dials saw their context cancelled.
+func (d *DelayDialer) Cancelled() int64 { return d.cancelled.Load() }
 
 // Dials returns the number of DialContext calls.
 func (d *DelayDialer) Dials() int64 { return d.dials.Load() }
@@ -266,6 +310,21 @@ func (d *DelayDialer) Dials() int64 { return d.dials.Load() }
 // DialContext implements syncer.Dialer.
 func (d *DelayDialer) DialContext(ctx context.Context, network, address string) (net.Conn, error) {
 	d.dials.Add(1)
+	if d.hang.Load() {
+		d.relMu.Lock()
+		rel := d.release
+		d.relMu.Unlock()
+		d.parked.Add(1)
+		d.everHung.Add(1)
+		defer d.parked.Add(-1)
+		select {
+		case <-ctx.Done():
+			d.cancelled.Add(1)
+			return nil, ctx.Err()
+		case <-rel:
+			return nil, errors.New("limitlab: hanging dial released by the monitor")
+		}
+	}
 	if d.Delay != nil {
 		if w := d.Delay(); w > 0 {
 			t := time.NewTimer(w)
